@@ -271,7 +271,11 @@ class Interp(ExprMixin):
     def st_ImportFrom(self, st, s):
         mod = self.ctx.abs_module(st.env.get("__module__") or self.ctx.modname, s.module, s.level)
         for a in s.names:
-            st.env[a.asname or a.name] = self.ctx.import_name(mod, a.name)
+            try:
+                st.env[a.asname or a.name] = self.ctx.import_name(mod, a.name)
+            except OutOfSubset as e:
+                # a library function without a model: importing it is harmless, CALLING it needs a contract handler / library model
+                st.env[a.asname or a.name] = ("library-function", mod, a.name, str(e))
         self.ctx.dropped("function-local import (name bound through the real module)")
         return None
 
